@@ -230,6 +230,12 @@ def run(ctx):
             if not isre and term in exp and value != exp[term]:
                 ctx.add_violation("a string literal does not denote its own characters: terminal %r has the value %r, the literal written denotes %r" % (term, value, exp[term]),
                                   {"input": t, "input_hex": hx(t.encode()), "terminal": term, "implementation_value": value, "documented_value": exp[term]})
+        # ... decided from the source, not from the names the implementation gives its terminals: the values of the string definitions
+        # are exactly the documented values of the literals and string tokens written
+        doc_vals, impl_vals = set(exp.values()), set(v for (_, v, r) in defs if not r)
+        if doc_vals != impl_vals:
+            ctx.add_violation("the string definitions do not denote the literals written: values %r, documented %r" % (sorted(impl_vals - doc_vals), sorted(doc_vals - impl_vals)),
+                              {"input": t, "input_hex": hx(t.encode()), "implementation_values": sorted(impl_vals), "documented_values": sorted(doc_vals)})
         def autos(table):
             out = []
             for (_, v, r) in defs:
